@@ -302,7 +302,7 @@ def rule_ag_stage(cx, rep, port):
                 if len(ds) == 1:
                     return element_of(ds[0].value)
             return None
-        ok2 = isinstance(recv, ast.Subscript) and (dotted(recv.value) or '').endswith('.aggregators') and isinstance(recv.slice, ast.Name) and is_name(c.args[0], fd.args.args[-2].arg) and element_of(c.args[1]) == (vparam, recv.slice.id)
+        ok2 = isinstance(recv, ast.Subscript) and (dotted(inline_single_defs(recv.value, fd, depth=3, any_value=True)) or '').endswith('.aggregators') and isinstance(recv.slice, ast.Name) and is_name(c.args[0], fd.args.args[-2].arg) and element_of(c.args[1]) == (vparam, recv.slice.id)
     rep.decide(ok2, 'stage 2', incs2[0] if incs2 else iff, 'aggregators[i].increment(key, value i)', 'stage 2 does not increment aggregator i with output value i under the group key')
     # key set
     adds = [n for n in fd.body if isinstance(n, ast.Expr) and isinstance(n.value, ast.Call) and isinstance(n.value.func, ast.Attribute) and n.value.func.attr == 'add' and (dotted(n.value.func.value) or '').endswith('aggregation_keys')]
